@@ -44,6 +44,11 @@ def json_cases(tier):
     for a, b in ds.pairs(budget(tier)):
         for opt in pairspace.relevant_options(a, b):
             yield {'kind': 'json', 'a': a, 'b': b, 'opt': list(opt)}
+    # non-finite numbers: NaN is not equal to itself in Python, but a file holding NaN is equal to itself as data
+    nf = DocSpace((float('nan'), float('inf'), float('-inf'), 'NaN', 1.5), ('a',), 3)
+    for a, b in nf.pairs(4):
+        for opt in pairspace.relevant_options(a, b):
+            yield {'kind': 'json', 'a': a, 'b': b, 'opt': list(opt)}
 
 
 def xml_cases(tier):
